@@ -151,7 +151,12 @@ func filterChecks(c *Ctx, r *Report, selection bool) {
 											return nf == 1, true
 										}
 										keyErr = "the pattern is matched against " + t.Args[1].String() + " instead of the lint's name"
-									case t.Op == "lookup" && len(t.Args) == 2:
+									case (t.Op == "lookup" && len(t.Args) == 2) || (t.Op == "extract" && t.Name == "1" && len(t.Args) == 1 && t.Args[0].Op == "lookup" && t.Args[0].Name == "commaok" && len(t.Args[0].Args) == 2):
+										// m[k] on a map whose recorded values are all true, or the
+										// membership test _, ok := m[k] (set representation)
+										if t.Op == "extract" {
+											t = t.Args[0]
+										}
 										if st, kind, ok := mapState(t.Args[0]); ok {
 											wantKey := name0
 											if kind == "source" {
@@ -400,7 +405,7 @@ func c08SourceMap(c *Ctx, r *Report) {
 		for i := int64(0); i < n; i++ {
 			found := false
 			for _, ev := range o.Trace {
-				if ev.Kind == "mapupdate" && ev.Name == o.Results[0].String() && ev.Args[0].String() == fmt.Sprintf("%s[%d]", p, i) && ev.Args[1].String() == "true" {
+				if ev.Kind == "mapupdate" && ev.Name == o.Results[0].String() && ev.Args[0].String() == fmt.Sprintf("%s[%d]", p, i) && (ev.Args[1].String() == "true" || !isBoolTyped(ev.Args[1])) {
 					found = true
 				}
 			}
